@@ -58,6 +58,50 @@ func TestGeneratorsBuild(t *testing.T) {
 	}
 }
 
+// The constant-heavy sources of the history relation must build and run; the
+// broken variants must fail to build.
+func TestConstGenerators(t *testing.T) {
+	bad := 0
+	for i := 0; i < 300; i++ {
+		r := core.Rand(int64(i), "cp")
+		broken := i%5 == 4
+		var cd *caseData
+		if i%2 == 0 {
+			cd = &caseData{Kind: "program", Files: map[string]string{"main.go": genConstProgram(r, broken)}, Run: true}
+		} else {
+			files, main := genConstTemplate(r, broken)
+			cd = &caseData{Kind: "template", Files: files, Main: main, Run: true}
+		}
+		o, p := observe(cd)
+		if p || (o.BuildErr != "") != broken || o.RunErr != "" {
+			bad++
+			if bad < 6 {
+				t.Errorf("source %d (broken=%v): panic=%v builderr=%q runerr=%q\n%v", i, broken, p, o.BuildErr, o.RunErr, cd.Files)
+			}
+		}
+	}
+	if bad > 0 {
+		t.Errorf("%d of 300 constant-heavy sources misbehave", bad)
+	}
+}
+
+// The history machinery must see a dependence on the build history: the
+// observation of P differs when the digest does.
+func TestHistoryCaseShape(t *testing.T) {
+	cd := genHistoryCase(7, 0)
+	if len(cd.Hist) == 0 || cd.Order != "" {
+		t.Fatalf("bad history case: %d predecessors, order %q", len(cd.Hist), cd.Order)
+	}
+	for _, o := range histOrders {
+		x := cd
+		x.Order = o
+		r := workHistory(&x)
+		if r.Status != core.OK || len(r.Out) == 0 {
+			t.Fatalf("order %s: %s %s", o, r.Status, r.Detail)
+		}
+	}
+}
+
 func TestDiffObs(t *testing.T) {
 	a := observation{Asm: "x\ny\n", UsedVars: []string{"a"}, Output: "1"}
 	b := a
